@@ -51,7 +51,26 @@ func genHistory(t *rapid.T) *Case {
 		}
 		c.Pool = append(c.Pool, pc)
 	}
-	c.Scrib = rapid.IntRange(0, 1).Draw(t, "startbuilt")
+	c.Scrib = rapid.IntRange(0, 1).Draw(t, "startbuilt") | rapid.IntRange(0, 1).Draw(t, "reusedbuffer")<<1
+	if rapid.Bool().Draw(t, "twinstream") && len(c.Pool) > 0 {
+		// a second stream of EXACTLY the same length: same keys and options, other fixed-size values
+		src := c.Pool[pickU(t, "twinof", len(c.Pool))]
+		if src.HasVals && encSpecs[c.Enc].width > 0 && !isLegacyLoad(src) {
+			tw := *src
+			tw.Vals = make([]Hex, len(src.Vals))
+			for i, v := range src.Vals {
+				b := []byte(v)
+				if len(b) == 0 {
+					b = []byte{0}
+				}
+				b = append([]byte{}, b...)
+				b[0] ^= 0x55
+				tw.Vals[i] = Hex(b)
+			}
+			c.Pool = append(c.Pool, &tw)
+			np = len(c.Pool)
+		}
+	}
 	n := rapid.IntRange(1, 6).Draw(t, "nhist")
 	ops := []string{"unmarshal", "unmarshal", "unmarshal", "proto", "reset", "trunc", "badver"}
 	for i := 0; i < n; i++ {
@@ -283,6 +302,9 @@ func TestC07(t *testing.T) {
 				c.Probe = []int32{0}
 			}
 			c.Ver = Hex(v)
+			if !ok && rapid.Bool().Draw(t, "garbleheader") {
+				c.Scrib = rapid.IntRange(1, 1<<20).Draw(t, "garble")
+			}
 			if ok && isLegacy3(c.Load) {
 				// legacyStream would use Ver as header override: same effect
 			}
